@@ -913,3 +913,24 @@ example : ((run rxTrue tupleLen 0 World.empty []).2.map (·.outcome)) =
     [.ok, .ok, .ok, .mergeError 0 .callableError] := by decide
 
 end ParamVerif.Inherit
+
+namespace ParamVerif.Inherit
+
+/-- the plain Parameter slots `pickle_default_value`, `per_instance`, `allow_refs`, `nested_refs`
+inherit like any other; a changed `allow_refs` counts as an override (the inherited default is
+re-validated), a changed `pickle_default_value` (in `_non_validated_slots`) does not -/
+def plainSlots : List Op :=
+  [.declare 0 [0] [(0, mkDecl .number [(.default, intV 5), (.bounds, numBounds 1 0 10), (.allowRefs, boolV true),
+      (.perInstance, boolV false)])],
+   .declare 1 [1, 0] [(0, mkDecl .number [(.allowRefs, boolV false)])],
+   .declare 2 [2, 0] [(0, mkDecl .number [(.pickleDefault, boolV false)])],
+   .declare 3 [3, 1, 2, 0] [(0, mkDecl .number [])]]
+example : ((run rxTrue plainSlots 0 World.empty []).1.params 3 0).map
+      (fun p => (p.cfg .allowRefs, p.cfg .perInstance, p.cfg .pickleDefault, p.cfg .nestedRefs)) =
+    some (some (.atom (.bool false)), some (.atom (.bool false)), some (.atom (.bool true)),
+          some (.atom (.bool false))) := by decide
+example : ((run rxTrue plainSlots 0 World.empty []).2.map
+    (fun o => o.merged.map (fun x => (x.2.overridden, x.2.revalidated)))) =
+    [[(false, false)], [(true, true)], [(false, false)], [(true, true)]] := by decide
+
+end ParamVerif.Inherit
